@@ -481,6 +481,8 @@ impl<F: PathFetcher> PathSet<F> {
 
         // Always update ranking, and possibly active path
         self.rerank(now, manager);
+        #[cfg(feature = "verif-hooks")]
+        crate::verif::yield_point("f.before_active_update").await;
         self.maybe_update_active_path(now, manager);
         #[cfg(feature = "verif-hooks")]
         crate::verif::yield_point("f.before_notify").await;
